@@ -16,7 +16,7 @@
 (*   the outcome equals DecodeMech!MechParse(b), which is the model that    *)
 (*   TLC has checked exhaustively for termination and index safety.         *)
 (***************************************************************************)
-EXTENDS DecodeMech, TLC, TLCExt, Json, IOUtils
+EXTENDS DecodeMech, CrateView, TLC, TLCExt, Json, IOUtils
 
 Rec == ndJsonDeserialize(IOEnv.TRACE)
 TimeBudgetMs == 1500
@@ -26,44 +26,6 @@ vars == <<l, viol, drift>>
 
 Ev == Rec[l]
 Chk(tag, cond) == IF cond THEN {} ELSE {<<tag, l, Ev.id>>}
-
-Supported == {TA, TCNAME, TPTR, THINFO, TTXT, TAAAA, TSRV, TNSEC}
-
-Has(r, f) == f \in DOMAIN r
-
-NormTtl(t4, isResp) == IF isResp /\ t4 = <<0, 0, 0, 0>> THEN <<0, 0, 0, 1>> ELSE t4
-
-(* c : record as returned by the crate; r : record as read by the oracle   *)
-SameRec(c, r, isResp) ==
-  /\ c.n = Dotted(r.name)
-  /\ c.ty = r.ty /\ c.cls = r.class /\ c.fl = r.flush
-  /\ c.ttl4 = NormTtl(r.ttl4, isResp)
-  /\ CASE r.rd.kind = "name"  -> Has(c, "t") /\ c.t = Dotted(r.rd.target)
-       [] r.rd.kind = "srv"   -> /\ Has(c, "t") /\ c.t = Dotted(r.rd.target)
-                                 /\ Has(c, "srv") /\ c.srv = <<r.rd.prio, r.rd.weight, r.rd.port>>
-       [] r.rd.kind = "bytes" -> Has(c, "x") /\ c.x = r.rd.bytes
-       [] r.rd.kind = "nsec"  -> TRUE    \* the facade cannot see NSEC rdata (private fields): header only
-       [] OTHER -> TRUE
-
-SameSection(cs, rs, isResp) ==
-  LET keep == SelectSeq(rs, LAMBDA r : r.ty \in Supported) IN
-  /\ Len(cs) = Len(keep)
-  /\ \A i \in 1..Len(cs) : SameRec(cs[i], keep[i], isResp)
-
-SameQs(cq, oq) == /\ Len(cq) = Len(oq)
-                  /\ \A i \in 1..Len(cq) : cq[i].n = Dotted(oq[i].name) /\ cq[i].ty = oq[i].ty
-
-MaxNameLen(e) ==
-  LET names == {e.q[i].n : i \in 1..Len(e.q)}
-               \cup UNION {{s[i].n : i \in 1..Len(s)} \cup {s[i].t : i \in {j \in 1..Len(s) : Has(s[j], "t")}}
-                           : s \in {e.an, e.ns, e.ar}}
-  IN IF names = {} THEN 0 ELSE CHOOSE m \in {Len(n) : n \in names} : \A n \in names : Len(n) <= m
-
-Inside(e) ==
-  LET o == ParseMsg(e.b) IN
-  /\ o.ok
-  /\ SameQs(e.q, o.qs)
-  /\ SameSection(e.an, o.an, o.qr) /\ SameSection(e.ns, o.ns, o.qr) /\ SameSection(e.ar, o.ar, o.qr)
 
 (* mechanism conformance *)
 MechSame(c, r) ==
